@@ -127,4 +127,10 @@ var registry = []prop{
 		Thor:   tierCfg{Shards: 16, Scale: 8, TimeoutS: 1800},
 		Assume: []string{"strings are XML 1.0 representable, floats finite, times UTC; note dates have whole seconds (the notes API format has no fraction)", "nil and empty slices/blocks are the same value; an empty changeset discussion equals none (documented omission)", "create actions of a Diff hold exactly one element"},
 	},
+	{
+		ID: "C05", Pkg: "props/c05", Level: "exploration",
+		Quick:  tierCfg{Shards: 1, Scale: 1, TimeoutS: 300},
+		Thor:   tierCfg{Shards: 16, Scale: 8, TimeoutS: 1800},
+		Assume: []string{"tag keys are unique per element (JSON objects cannot carry duplicates)", "the user-installed codecs are harness-written implementations of the two codec interfaces over encoding/json (the cached json-iterator/reflect2 pair crashes on this Go version)", "the package-level codec variables are process-global; cases run sequentially and restore them"},
+	},
 }
